@@ -121,20 +121,39 @@ package internal
 //@ macro NRESULTS = pure("(*go/types.Tuple).Len", pure("(*go/types.Signature).Results", f.Sig))
 //@ macro LASTTYPE = pure("(*go/types.object).Type", addr0(pure("(*go/types.Tuple).At", pure("(*go/types.Signature).Results", f.Sig), pure("(*go/types.Tuple).Len", pure("(*go/types.Signature).Results", f.Sig)) - 1)))
 
+//@ macro PARAMS(SG) = pure("(*go/types.Signature).Params", SG)
+//@ macro TLEN(TP) = pure("(*go/types.Tuple).Len", TP)
+//@ macro VTYPE(TP, KK) = pure("(*go/types.object).Type", addr0(pure("(*go/types.Tuple).At", TP, KK)))
+
 //@ func (*compiler).compileFunction
 //@   option props=[C13]
 //@   requires $C
 //@   at call TypeOf 1 assume typeChecked-argument-expression-has-a-type: ret != nil
-//@   loop 1 invariant index-non-negative: 0 <= i
-//@   loop 2 invariant [C13] every-result-so-far-is-an-output-or-the-final-error: 0 <= i && i <= $NRESULTS && len(f.Outputs) + ite(f.HasError, 1, 0) == i && implies(f.HasError, i == $NRESULTS && typeof($LASTTYPE) == typeid("*go/types.Named"))
+//@   loop 1 invariant [C02,C11,C13] inputs-so-far-are-the-non-context-parameters-in-order: 0 <= i && i <= $TLEN($PARAMS(f.Sig)) && len(f.Inputs) + ite(f.WantCtx, 1, 0) == i && forall(j, int, implies(0 <= j && j < len(f.Inputs), f.Inputs[j] == $VTYPE($PARAMS(f.Sig), j + ite(f.WantCtx, 1, 0))))
+//@   loop 2 invariant [C13] every-result-so-far-is-an-output-or-the-final-error: 0 <= i && i <= $NRESULTS && len(f.Outputs) + ite(f.HasError, 1, 0) == i && implies(f.HasError, i == $NRESULTS && typeof($LASTTYPE) == typeid("*go/types.Named")) && forall(j, int, implies(0 <= j && j < len(f.Outputs), f.Outputs[j] == $VTYPE($RESULTS, j)))
 //@   ensures [C13] outputs-are-the-non-error-results: implies(result != nil, len(result.Outputs) + ite(result.HasError, 1, 0) == pure("(*go/types.Tuple).Len", pure("(*go/types.Signature).Results", result.Sig)))
 //@   ensures [C13] an-error-result-is-the-last-and-of-a-named-type: implies(result != nil && result.HasError, typeof(pure("(*go/types.object).Type", addr0(pure("(*go/types.Tuple).At", pure("(*go/types.Signature).Results", result.Sig), pure("(*go/types.Tuple).Len", pure("(*go/types.Signature).Results", result.Sig)) - 1)))) == typeid("*go/types.Named"))
+//@   ensures [C02,C11,C13] inputs-are-the-non-context-parameters-in-order: implies(result != nil, len(result.Inputs) + ite(result.WantCtx, 1, 0) == $TLEN($PARAMS(result.Sig)) && forall(j, int, implies(0 <= j && j < len(result.Inputs), result.Inputs[j] == $VTYPE($PARAMS(result.Sig), j + ite(result.WantCtx, 1, 0)))))
+//@   ensures [C02,C13] outputs-are-the-leading-results-in-order: implies(result != nil, forall(j, int, implies(0 <= j && j < len(result.Outputs), result.Outputs[j] == $VTYPE(pure("(*go/types.Signature).Results", result.Sig), j))))
 //@   ensures [C13] signature-is-the-underlying-type-of-the-expression: implies(result != nil, result.Sig == dataof(pure("invoke go/types.Type.Underlying", pure("(*go/types.Info).TypeOf", c.info, expr))))
+
+//@ func (*flow).addPredicateOutput
+//@   option props=[C13]
+//@   requires f != nil
+//@   ensures [C11] the-sentinel-type-is-a-new-non-nil-struct-type: result != nil
+
+//@ func (*flow).addNoOutput
+//@   option props=[C13]
+//@   requires f != nil
+//@   ensures [C02] the-sentinel-type-is-a-new-non-nil-struct-type: result != nil
 
 //@ func (*compiler).compilePredicate
 //@   option props=[C13]
 //@   requires $C && f != nil && t != nil && call != nil
 //@   requires typeChecked-predicate-has-function: len(call.Args) == 1
+//@   ghost cf compiledFunc
+//@   at call compileFunction 1 ghost cf = ret
+//@   ensures [C11,C02] predicate-keeps-the-compiled-functions-signature-and-inputs: implies(result != nil, result.Function != nil && result.Function.Predicate == result && result.Task == t && result.Inputs == cf.Inputs && result.Function.Dependencies == cf.Inputs && result.Function.Sig == cf.Sig && result.Function.WantCtx == cf.WantCtx && result.Function.Node == cf.Node && result.SentinelOutput != nil)
 //@   at call TypeOf 1 assume library-a-signature-is-its-own-underlying-type: implies(typeof(ret) == typeid("*go/types.Signature"), pure("invoke go/types.Type.Underlying", ret) == ret)
 
 //@ func (*compiler).compileParallelTaskFn
@@ -167,6 +186,10 @@ package internal
 //@   modifies go.uber.org_cff_internal.flow.invokeTypes, go.uber.org_cff_internal.flow.invokeTypeCnt, go.uber.org_cff_internal.flow.predicateTypes, go.uber.org_cff_internal.flow.predicateTypeCnt, go.uber.org_cff_internal.compiler.errors, go.uber.org_cff_internal.compiler.taskSerial
 //@   requires $C && flow != nil
 //@   at call compileFunction 1 assume compiled-function-has-a-signature: implies(ret != nil, ret.Sig != nil)
+//@   ghost cf compiledFunc
+//@   at call compileFunction 1 ghost cf = ret
+//@   ensures [C02,C11] task-keeps-the-compiled-functions-signature-inputs-and-outputs: implies(result != nil, result.Inputs == cf.Inputs && result.Outputs == cf.Outputs && result.Function != nil && result.Function.Task == result && result.Function.Sig == cf.Sig && result.Function.WantCtx == cf.WantCtx && result.Function.HasError == cf.HasError && result.Function.Node == cf.Node)
+//@   ensures [C01,C02,C11] dependencies-are-the-inputs-then-the-predicates-sentinel: implies(result != nil, len(result.Function.Dependencies) == len(result.Inputs) + ite(result.Predicate != nil, 1, 0) && forall(k, int, implies(0 <= k && k < len(result.Inputs), result.Function.Dependencies[k] == result.Inputs[k])) && implies(result.Predicate != nil, dataof(result.Function.Dependencies[len(result.Inputs)]) == result.Predicate.SentinelOutput && typeof(result.Function.Dependencies[len(result.Inputs)]) == typeid("*go/types.Struct")))
 
 //@ func (*compiler).compileInstrument
 //@   option props=[C13]
@@ -241,12 +264,28 @@ package internal
 // provider with the path extended by the current entry, and a type is memoised
 // as cycle-free only after all of them were searched.
 
+// The providers map holds indices into Funcs (data-structure invariant of flow,
+// established by compileFlow, relied on by the validators and the scheduler)
+// and is not modified by the validators.
+//@ macro PROVIDX(FL) = FL.providers != nil && forall(t, int, implies(typeof(tmapAt(FL.providers, t)) == typeid("int"), 0 <= dataof(tmapAt(FL.providers, t)) && dataof(tmapAt(FL.providers, t)) < len(FL.Funcs)))
+//@ macro UNCH(FL) = forall(t, int, tmapAt(FL.providers, t) == old(tmapAt(FL.providers, t)))
+
+//@ func validateFlowCycles
+//@   option props=[C13]
+//@   requires f != nil && fset != nil
+//@   requires funcs-non-nil: forall(i, int, implies(0 <= i && i < len(f.Funcs), f.Funcs[i] != nil && f.Funcs[i].Node != nil))
+//@   requires providers-hold-function-indices: $PROVIDX(f)
+//@   ensures [C14,C01] providers-map-unchanged: $UNCH(f)
+
 //@ func findFlowCycles
 //@   option props=[C13]
 //@   ghost nsearch int = 0
 //@   requires f != nil && visited != nil && fset != nil
 //@   requires funcs-non-nil: forall(i, int, implies(0 <= i && i < len(f.Funcs), f.Funcs[i] != nil && f.Funcs[i].Node != nil))
-//@   loop 2 invariant [C14] every-dependency-edge-so-far-was-searched: 0 <= idx2 && idx2 <= len(t.Dependencies)
+//@   requires providers-hold-function-indices: $PROVIDX(f) && visited != f.providers
+//@   loop 1 invariant providers-map-unchanged: $UNCH(f)
+//@   loop 2 invariant [C14] every-dependency-edge-so-far-was-searched: 0 <= idx2 && idx2 <= len(t.Dependencies) && $UNCH(f)
+//@   ensures [C14,C01] providers-map-unchanged: $UNCH(f)
 //@   at call findFlowCyclesForFunc 1 pre assert [C14] search-starts-from-each-dependency-edge: arg0 == f && len(arg1) == 0 && arg2 == t.Dependencies[idx2] && arg3 == visited
 
 //@ func findFlowCyclesForFunc
@@ -254,8 +293,10 @@ package internal
 //@   ghost nsearch int = 0
 //@   requires f != nil && visited != nil && fset != nil
 //@   requires funcs-non-nil: forall(i, int, implies(0 <= i && i < len(f.Funcs), f.Funcs[i] != nil && f.Funcs[i].Node != nil))
-//@   at call At 1 assume provider-index-in-range: implies(typeof(ret) == typeid("int"), 0 <= dataof(ret) && dataof(ret) < len(f.Funcs))
-//@   loop 2 invariant [C14] dependencies-searched-so-far: nsearch == idx2 && 0 <= idx2 && idx2 <= len(fn.Dependencies)
+//@   requires providers-hold-function-indices: $PROVIDX(f) && visited != f.providers
+//@   loop 1 invariant providers-map-unchanged: $UNCH(f)
+//@   loop 2 invariant [C14] dependencies-searched-so-far: nsearch == idx2 && 0 <= idx2 && idx2 <= len(fn.Dependencies) && $UNCH(f)
+//@   ensures [C14,C01] providers-map-unchanged: $UNCH(f)
 //@   at call findFlowCyclesForFunc 1 pre assert [C14] recursion-follows-each-dependency-with-the-extended-path: arg0 == f && arg2 == fn.Dependencies[idx2] && arg3 == visited && len(arg1) == len(path) + 1 && arg1[len(path)].Type == t && arg1[len(path)].Func == fn
 //@   at call findFlowCyclesForFunc 1 ghost nsearch = nsearch + 1
 //@   at call Set 1 pre assert [C14] memoised-only-after-every-dependency-was-searched: nsearch == len(fn.Dependencies) && arg1 == t
@@ -269,25 +310,35 @@ package internal
 
 //@ macro FUNCSOK = forall(i, int, implies(0 <= i && i < len(flow.Funcs), flow.Funcs[i] != nil && flow.Funcs[i].Node != nil)) && forall(i, int, implies(0 <= i && i < len(flow.Inputs), flow.Inputs[i] != nil)) && forall(i, int, implies(0 <= i && i < len(flow.Outputs), flow.Outputs[i] != nil)) && forall(i, int, implies(0 <= i && i < len(flow.invokeTypes), flow.invokeTypes[i] != nil))
 
+//@ macro PROVEMPTY = forall(t, int, tmapAt(flow.providers, t) == nil) && flow.providers != nil && flow.receivers != nil && flow.providers != flow.receivers
+//@ macro PROVOK = forall(t, int, implies(typeof(tmapAt(flow.providers, t)) == typeid("int"), 0 <= dataof(tmapAt(flow.providers, t)) && dataof(tmapAt(flow.providers, t)) < len(flow.Funcs))) && forall(t, int, tmapAt(flow.providers, t) == nil || typeof(tmapAt(flow.providers, t)) == typeid("int")) && flow.providers != nil && flow.receivers != nil && flow.providers != flow.receivers
+
+//@ func (*flow).mustSetNoOutputProvider
+//@   option props=[C13]
+//@   may-panic
+//@   requires f != nil && key != nil && key.Task != nil && f.providers != nil && f.receivers != nil && f.providers != f.receivers
+//@   ensures [C14,C01] only-the-sentinel-type-gets-this-provider: forall(t, int, tmapAt(f.providers, t) == old(tmapAt(f.providers, t)) || (typeof(tmapAt(f.providers, t)) == typeid("int") && dataof(tmapAt(f.providers, t)) == value))
+
 //@ func (*compiler).compileFlow
 //@   option props=[C13]
 //@   ghost dup bool = false
 //@   requires $C && call != nil && file != nil
+//@   requires compiler-has-its-file-set: c.fset != nil
 //@   requires typeChecked-flow-has-a-context-argument: len(call.Args) >= 1
-//@   loop 1 invariant task-functions-non-nil: $FUNCSOK && !dup
-//@   loop 2 invariant [C14] duplicate-params-type-was-reported: !dup && $FUNCSOK
-//@   loop 3 invariant results-loop: $FUNCSOK
+//@   loop 1 invariant task-functions-non-nil: $FUNCSOK && !dup && $PROVEMPTY
+//@   loop 2 invariant [C14] duplicate-params-type-was-reported: !dup && $FUNCSOK && $PROVEMPTY
+//@   loop 3 invariant results-loop: $FUNCSOK && $PROVEMPTY
 //@   at call At 1 ghost dup = typeof(ret) == typeid("*go.uber.org/cff/internal.input") && dataof(ret) != 0
 //@   at call errf 5 ghost dup = false
 //@   at call compileInstrument 1 pre assume typeChecked-instrument-arity: len(arg1.Args) == 1
 //@   at call Name 1 assume typeChecked-single-argument-options-have-their-argument: implies(ret == "Task" || ret == "Concurrency" || ret == "InstrumentFlow" || ret == "WithEmitter", len(ce.Args) >= 1)
 //@   at call compileTask 1 assume compiled-task-has-its-functions: implies(ret != nil, ret.Function != nil && ret.Function.Node != nil && implies(ret.Predicate != nil, ret.Predicate.Function != nil && ret.Predicate.Function.Node != nil))
 //@   at call compileTask 1 assume add-no-output-appends-a-fresh-sentinel: forall(i, int, implies(0 <= i && i < len(flow.invokeTypes), flow.invokeTypes[i] != nil))
-//@   loop 4 invariant providers-loop: $FUNCSOK && !dup
-//@   loop 5 invariant receivers-loop: $FUNCSOK && !dup
-//@   loop 6 invariant [C14] duplicate-provider-was-reported: !dup && $FUNCSOK
-//@   at call scheduleFlowAndToposort 1 pre assume unproved-flow-functions-are-distinct-objects-and-providers-index-them: forall(i, int, implies(0 <= i && i < len(flow.Funcs), forall(i2, int, implies(0 <= i2 && i2 < len(flow.Funcs) && i != i2, flow.Funcs[i] != flow.Funcs[i2])))) && forall(t, int, implies(typeof(tmapAt(flow.providers, t)) == typeid("int"), 0 <= dataof(tmapAt(flow.providers, t)) && dataof(tmapAt(flow.providers, t)) < len(flow.Funcs)))
-//@   at call Set 5 assume providers-hold-function-indices: ret == nil || (typeof(ret) == typeid("int") && 0 <= dataof(ret) && dataof(ret) < len(flow.Funcs))
+//@   loop 4 invariant [C01,C02,C11,C14] providers-map-holds-function-indices: $FUNCSOK && !dup && $PROVOK
+//@   loop 5 invariant receivers-loop: $FUNCSOK && !dup && $PROVOK
+//@   loop 6 invariant [C14] duplicate-provider-was-reported: !dup && $FUNCSOK && $PROVOK
+//@   at call scheduleFlowAndToposort 1 pre assume unproved-flow-functions-are-distinct-objects: forall(i, int, implies(0 <= i && i < len(flow.Funcs), forall(i2, int, implies(0 <= i2 && i2 < len(flow.Funcs) && i != i2, flow.Funcs[i] != flow.Funcs[i2]))))
+//@   at call Set 5 assert [C14] previous-provider-is-a-function-index: ret == nil || (typeof(ret) == typeid("int") && 0 <= dataof(ret) && dataof(ret) < len(flow.Funcs))
 //@   at call Set 5 ghost dup = ret != nil
 //@   at call errf 6 ghost dup = false
 //@   ensures@return4 [C14] accepted-flow-has-no-diagnostics: len(c.errors) == 0
@@ -307,13 +358,14 @@ package internal
 //@   ghost miss bool = false
 //@   ghost unusedLeft int = 0
 //@   requires $C && f != nil && f.providers != nil
+//@   requires providers-hold-function-indices: $PROVIDX(f)
 //@   requires funcs-non-nil: forall(i, int, implies(0 <= i && i < len(f.Funcs), f.Funcs[i] != nil && f.Funcs[i].Node != nil))
 //@   requires inputs-non-nil: forall(i, int, implies(0 <= i && i < len(f.Inputs), f.Inputs[i] != nil)) && forall(i, int, implies(0 <= i && i < len(f.Outputs), f.Outputs[i] != nil)) && forall(i, int, implies(0 <= i && i < len(f.invokeTypes), f.invokeTypes[i] != nil))
-//@   loop 2 invariant queue-holds-visit-records: $QT
-//@   loop 3 invariant queue-holds-visit-records: $QT
-//@   loop 4 invariant [C14] missing-provider-was-reported: !miss && $QT
-//@   at call At 2 assume providers-hold-function-indices: implies(typeof(ret) == typeid("int"), 0 <= dataof(ret) && dataof(ret) < len(f.Funcs))
-//@   loop 5 invariant [C14] dependencies-queued-so-far: 0 <= idx5 && idx5 <= len(fn.Dependencies) && !miss && $QT
+//@   loop 1 invariant providers-map-unchanged: $UNCH(f)
+//@   loop 2 invariant queue-holds-visit-records: $QT && $UNCH(f)
+//@   loop 3 invariant queue-holds-visit-records: $QT && $UNCH(f)
+//@   loop 4 invariant [C14] missing-provider-was-reported: !miss && $QT && $UNCH(f)
+//@   loop 5 invariant [C14] dependencies-queued-so-far: 0 <= idx5 && idx5 <= len(fn.Dependencies) && !miss && $QT && $UNCH(f)
 //@   at call PushBack 3 pre assert [C14] every-dependency-of-a-needed-provider-is-queued: unboxed(arg1).Type == fn.Dependencies[idx5]
 //@   at call Delete 1 ghost miss = !ret
 //@   at call errf 1 ghost miss = false
@@ -321,9 +373,10 @@ package internal
 //@   at call Len 2 ghost unusedLeft = ret
 //@   at call Keys 1 assume typeutil-keys-lists-every-entry: len(ret) == unusedLeft
 //@   at call At 3 assume input-map-holds-inputs: typeof(ret) == typeid("*go.uber.org/cff/internal.input") && dataof(ret) != 0
-//@   loop 6 invariant [C14] one-diagnostic-per-unused-input: 0 <= idx6 && idx6 <= len(inputs) && unusedLeft + idx6 == len(inputs)
+//@   loop 6 invariant [C14] one-diagnostic-per-unused-input: 0 <= idx6 && idx6 <= len(inputs) && unusedLeft + idx6 == len(inputs) && $UNCH(f)
 //@   at call errf 2 ghost unusedLeft = unusedLeft - 1
 //@   ensures [C14] every-unused-input-and-missing-provider-was-reported: !miss && unusedLeft == 0
+//@   ensures [C14,C01] providers-map-unchanged: $UNCH(f)
 
 //@ func (*compiler).validateNoUnusedOutputTypes
 //@   option props=[C13]
